@@ -156,10 +156,10 @@ func zzAdversarialProof(sized bool) {
 	zzReach(tag + "done")
 }
 
-//zz:harness tier=thorough unwind=80 maxpaths=600000 timebudget=6000 panic=ignore param.proofnodes@thorough=3
+//zz:harness tier=thorough unwind=80 maxpaths=900000 timebudget=14400 panic=ignore param.proofnodes@thorough=3
 //zz:reach M2b.done M2b.accepted
 func ZZ_C16_M2b_adversarial_proof_sized_values() { zzAdversarialProof(true) }
 
-//zz:harness unwind=80 maxpaths=600000 timebudget=6000 panic=ignore param.fixquery@quick=1
+//zz:harness unwind=80 maxpaths=900000 timebudget=14400 panic=ignore param.fixquery@quick=1
 //zz:reach M2c.unsized-values.done M2c.unsized-values.accepted
 func ZZ_C16_M2c_adversarial_proof_unsized_values() { zzAdversarialProof(false) }
